@@ -50,6 +50,8 @@ class RuleCtx:
         self.tier = tier
         self.rule = rule_id
         self.insts = []
+        self.prop = None  # the property being checked (None when the rule runs as the decider of a diagnostic rule)
+        self.partial = False  # set by a rule that ran only the part of its cases relevant to cx.prop
 
     def _mk(self, verdict, node, construct, detail, nf, anchor, trivial, sub):
         rule = self.rule if not sub else f"{self.rule}.{sub}"
@@ -128,7 +130,7 @@ def load_known():
 # (equivalent) shape it may not recognise the construct or may mis-read it.  Its verdict therefore counts only when the
 # deciding rule does not hold either: if the deciding rule evaluates the current source and finds the behaviour right,
 # reports and "not recognised" errors of the diagnostic rule are downgraded to notes.
-DIAGNOSTIC = {"F1": "FM", "F4": "FM", "G4": "R14", "R08": "R14", "R11u": "R14", "A1": "AM", "A2": "AM", "A3": "AM", "A4": "AM", "A5": "AM", "A6": "AM", "A7": "AM", "L3": ("L1", "L2"), "D1": "DG", "D2s": "DG", "D4": "DG", "G3": "G3e", "M1": ("L1", "L2", "PS"), "R10": ("R10e", "L2", "R12"), "H2": "HV", "H5": "HV", "H6": "HV", "H7": "HV", "G5h": "HV"}
+DIAGNOSTIC = {"F1": "FM", "F4": "FM", "G4": "R14", "R08": "R14", "R11u": "R14", "A1": "AM", "A2": "AM", "A3": "AM", "A4": "AM", "A5": "AM", "A6": "AM", "A7": "AM", "L3": ("L1", "L2"), "D1": "DG", "D2s": "DG", "D4": "DG", "G3": "G3e", "M1": ("L1", "L2", "PS"), "R10": ("R10e", "L2", "R12"), "H2": "HV", "H5": "HV", "H6": "HV", "H7": "HV", "G5h": "HV", "R10r": "SV", "J1": "JD"}
 _decided_cache = {}
 
 
@@ -153,10 +155,13 @@ def run_rules(model, prop, tier, only=None):
             continue
         f, _, title = RULES[rid]
         cx = RuleCtx(model, tier, rid)
+        cx.prop = prop
         t0 = time.time()
         my_errors = []
         try:
             f(cx)
+            if not getattr(cx, "partial", False):
+                _decided_cache.setdefault((id(model), rid), not any(i.verdict == BAD for i in cx.insts) and any(i.verdict == OK for i in cx.insts))
         except AnalysisError as e:
             my_errors.append(str(e))
         except Exception as e:  # checker bug / unsupported construct: analysis error, never a verdict
